@@ -2,7 +2,15 @@
 
 package replica
 
-import "github.com/lindb/lindb/models"
+import (
+	"context"
+
+	"github.com/lindb/lindb/coordinator/storage"
+	"github.com/lindb/lindb/models"
+	"github.com/lindb/lindb/pkg/queue"
+	"github.com/lindb/lindb/rpc"
+	"github.com/lindb/lindb/tsdb"
+)
 
 // Verification exports for property C07 (node crash recovery). They only expose existing
 // unexported steps of a partition so that the harness can run the replica loop body and the
@@ -38,4 +46,55 @@ func VerifReplicator(p Partition, nodeID models.NodeID) (Replicator, bool) {
 	}
 	r, ok := pp.replicators[nodeID]
 	return r, ok
+}
+
+// VerifDisableReplicaLoop makes every partition created from now on (NewPartitionFn, used by
+// writeAheadLog.GetOrCreatePartition) believe its replica loop is already running, so that
+// StartReplica does not spawn the background goroutine; the harness runs the loop body itself with
+// VerifReplicaOnce. It returns a function restoring the previous constructor.
+func VerifDisableReplicaLoop() (restore func()) {
+	old := NewPartitionFn
+	NewPartitionFn = func(ctx context.Context, shard tsdb.Shard, family tsdb.DataFamily, currentNodeID models.NodeID,
+		log queue.FanOutQueue, cliFct rpc.ClientStreamFactory, stateMgr storage.StateManager,
+	) Partition {
+		p := old(ctx, shard, family, currentNodeID, log, cliFct, stateMgr)
+		if pp, ok := p.(*partition); ok {
+			pp.running.Store(true)
+		}
+		return p
+	}
+	return func() { NewPartitionFn = old }
+}
+
+// VerifGarbageCollect runs one tick of the write-ahead-log garbage-collect task
+// (writeAheadLogManager.garbageCollect: destroy() of every database log) synchronously.
+func VerifGarbageCollect(m WriteAheadLogManager) bool {
+	mm, ok := m.(*writeAheadLogManager)
+	if !ok {
+		return false
+	}
+	mm.garbageCollect()
+	return true
+}
+
+// VerifPartitionLog returns the fan-out queue of a partition.
+func VerifPartitionLog(p Partition) (queue.FanOutQueue, bool) {
+	pp, ok := p.(*partition)
+	if !ok {
+		return nil, false
+	}
+	return pp.log, true
+}
+
+// VerifHasPartition reports whether the database log currently holds a partition for the key
+// (without creating one).
+func VerifHasPartition(l WriteAheadLog, shardID models.ShardID, familyTime int64, leader models.NodeID) (Partition, bool) {
+	ll, ok := l.(*writeAheadLog)
+	if !ok {
+		return nil, false
+	}
+	ll.mutex.Lock()
+	defer ll.mutex.Unlock()
+	p, ok := ll.familyLogs[partitionKey{shardID: shardID, familyTime: familyTime, leader: leader}]
+	return p, ok
 }
